@@ -22,6 +22,7 @@ def units(tier, seed, only=None):
                       ('lemma_uint64', 'bytecode_append_uint64', 'orc_bytecode_parse_get_uint64')):
         us.append(core.Unit(lem, SRC, lem, enforce=None, replace=[a, g], functions=[],
                             contract_text='lemma over the two contracts: decode(encode(v)) == v and the decoder ends where the encoder ended'))
+    us.append(core.Unit('lemma_lanes', SRC, 'lemma_lanes', enforce=None, no_dfcc=True, functions=[], contract_text='bit-vector extensionality used to lift the per-lane lemmas'))
     if only:
         us = [u for u in us if re.search(only, u.name)]
     return us
